@@ -24,13 +24,13 @@ def describe(e):
 def run(R):
     R.rule = ("exhaustive: every constant and every table entry (256 + 64 + 64 affine Niels entries, packed bytes and the "
               "unpacked form on each backend; the start-up generated vector tables when AVX2 is live; 8 torsion points; field, "
-              "scalar, lattice and Elligator constants) dumped by in-package overlay tests under default / purego / force32bit "
+              "scalar, lattice and Elligator constants) dumped by in-package overlay tests under default / GODEBUG=cpu.avx2=off / purego / force32bit "
               "and recomputed by TLC from the definitions; distinct = distinct (constant or entry, backend, source)")
     R.assumptions += ["TLC/SANY, CommunityModules overrides", "BigNat/F25519/Edwards modules (Edwards formulas model-checked against the "
                       "affine law on toy curves)", "Element.ToBytes (covered by C04) to read field values", "L, d, B as defined in RFC 8032"]
     R.mc("MC_Edwards", "MC_Edwards_Toy29.cfg", timeout=900)
     allfiles = []
-    for lab in ["default", "purego", "force32bit"]:
+    for lab in ["default", "noavx2", "purego", "force32bit"]:
         tags, env = CONFIGS[lab]
         out = tempfile.mkdtemp(prefix="c20-", dir=R.scratch)
         e = dict(env, VERIF_OUT=out, VERIF_CFG=lab)
